@@ -13,15 +13,18 @@ from hv import common as C
 for s in (True, False, "tsan"):
     print(C.build_lib(s))
 PY
-rm -f build/lib-*cov-*/*.gcda
+[ $# -eq 0 ] && rm -f build/lib-*cov-*/*.gcda     # a full survey starts from zero; a per-check run accumulates
 for c in $CHECKS; do
   ( ./check.py $c --tier $TIER > build/coverage-$c.log 2>&1; tail -1 build/coverage-$c.log ) &
   while [ $(jobs -r | wc -l) -ge 5 ]; do sleep 2; done
 done
 wait
-rm -rf build/coverage; mkdir -p build/coverage
+(
+flock 9
+mkdir -p build/coverage
 for d in build/lib-*cov-*; do
   [ -d $d ] || continue
   ( cd $d; for o in *.gcda; do [ -f $o ] && gcov -f -o . ${o%.gcda}.c > gcov-${o%.gcda}.txt 2>/dev/null; done )
 done
 python3 gen/coverage_merge.py
+) 9> build/coverage.lock
